@@ -172,6 +172,36 @@ theorem rainfall_value_is_prorated_total (c : Cfg α) (hc : CfgOK c) (hr : c.rai
   rw [this] at hval
   exact mul_right_cancel₀ hPne hval
 
+/-- what "valid" means: both end values present and not below `-eps`, and the interval not longer than
+`maxgapsec` — so in the sums above every overlapping interval of a non-missing period has both values -/
+theorem valid_iff (c : Cfg α) (a b : Obs α) :
+    invalid c a b = false ↔ ∃ v1 v2, a.2 = some v1 ∧ b.2 = some v2 ∧ ¬ v1 < -c.eps ∧ ¬ v2 < -c.eps ∧
+      ¬ (c.maxgap : α) < (b.1 : α) - (a.1 : α) := by
+  obtain ⟨ta, va⟩ := a
+  obtain ⟨tb, vb⟩ := b
+  cases va <;> cases vb <;> simp [invalid, and_assoc]
+
+/-- **The clipped intervals tile the period.** For a non-decreasing series the overlaps
+`[max(t_a,S), min(t_b,E)]` of the observation intervals with `[S, E]` have total length
+`clamp(last) - clamp(first)`; so for a period inside the data (`first ≤ S`, `E ≤ last`) they cover it
+exactly once: the sum of the per-interval integrals is the integral over the whole period. -/
+theorem overlaps_tile (S E : Int) (hSE : S ≤ E) :
+    ∀ (a : Obs α) (l : List (Obs α)), Sorted (a :: l) →
+      ((pairs (a :: l)).map fun p => max 0 (ovHi E p.2 - ovLo S p.1)).sum =
+        min E (max S (lastTime (a :: l))) - min E (max S a.1)
+  | a, [], _ => by simp
+  | a, b :: r, hs => by
+    have ih := overlaps_tile S E hSE b r hs.tail
+    have hab : a.1 ≤ b.1 := hs.head_le b (by simp)
+    simp only [ovHi, ovLo] at ih
+    simp only [pairs_cons_cons, List.map_cons, List.sum_cons, lastTime_cons_cons, ovHi, ovLo, ih]
+    omega
+
+theorem overlaps_tile_covered (S E : Int) (hSE : S ≤ E) (a : Obs α) (l : List (Obs α)) (hs : Sorted (a :: l))
+    (h0 : a.1 ≤ S) (h1 : E ≤ lastTime (a :: l)) :
+    ((pairs (a :: l)).map fun p => max 0 (ovHi E p.2 - ovLo S p.1)).sum = E - S := by
+  rw [overlaps_tile S E hSE a l hs]; omega
+
 /-- **The start scan** leaves `varindex` on the interval that contains the origin:
 `varsec[varindex] ≤ hstart`, and the next stamp is later than `hstart` unless it is the last one. -/
 theorem startScan_position (hstart : Int) (a b : Obs α) (rest : List (Obs α)) (ha : a.1 ≤ hstart) :
@@ -278,6 +308,36 @@ theorem wrapper_spec (c : Cfg α) (hc : CfgOK c) (hgap : 3600 ≤ c.maxgap) (a b
   have h4 : ¬ nvalhOf a.1 (lastTime (a :: b :: rest)) c.P < 0 := by omega
   have h5 : ¬ nvalhOf a.1 (lastTime (a :: b :: rest)) c.P = 0 := by omega
   simp only [wrapper, h2, h3, if_false, List.head?_cons, hlst, hl1, h4, hk, h5]
+
+/-- **Hourly output: missing only for an invalid interval.** With `P = 3600` every period the wrapper
+computes lies inside the data, so a missing value (other than the final one) always comes from an invalid
+interval that overlaps or touches the period. -/
+theorem wrapper_hourly_missing_cause (c : Cfg α) (hc : CfgOK c) (hP : c.P = 3600) (hgap : 3600 ≤ c.maxgap)
+    (a b : Obs α) (rest : List (Obs α)) (hs : Sorted (a :: b :: rest))
+    (hn : 1 ≤ nvalhOf a.1 (lastTime (a :: b :: rest)) c.P)
+    (hstart : Int) (out : List (Option α)) (hw : wrapper c (a :: b :: rest) = .ok (hstart, out ++ [none]))
+    (i : Nat) (hi : out[i]? = some none) :
+    ∃ p ∈ pairs (a :: b :: rest), p.1.1 < perE c.P hstart i ∧ perS c.P hstart i ≤ p.2.1 ∧
+      invalid c p.1 p.2 = true := by
+  obtain ⟨out', hw', hlen, hall⟩ := wrapper_spec c hc hgap a b rest hs hn
+  rw [hw] at hw'
+  have hEq : hstart = origin a.1 ∧ out = out' := by
+    have := Except.ok.inj hw'
+    have h1 := (Prod.mk.inj this).1
+    have h2 := List.append_cancel_right (Prod.mk.inj this).2
+    exact ⟨h1, h2⟩
+  obtain ⟨rfl, rfl⟩ := hEq
+  have hok := hall i none hi
+  simp only [PeriodOK] at hok
+  have hilt : i < out.length := by
+    by_contra hcon
+    rw [List.getElem?_eq_none (by omega)] at hi
+    exact absurd hi (by simp)
+  have hle : a.1 ≤ lastTime (a :: b :: rest) := Sorted.le_lastTime hs a (by simp)
+  have hcov := hourly_periods_within_data a.1 (lastTime (a :: b :: rest)) hle i (by rw [hP] at hlen; omega)
+  rcases hok with hlt | h
+  · rw [hP] at hlt; omega
+  · exact h
 
 end field
 
